@@ -80,6 +80,7 @@ def classify(fmt, data, argv=()):
                 total = 0
                 i = 0
                 ok = False
+                pairs_after_full = 0
                 while i < len(body):
                     c = body[i]
                     if c == 0:
@@ -87,12 +88,18 @@ def classify(fmt, data, argv=()):
                         break
                     if i + 1 >= len(body):
                         break
+                    if total >= 32000:
+                        pairs_after_full += 1
                     total += c
                     i += 2
                 if not ok:
                     flags.add("short")
-                elif total != 32000:
-                    flags.add("mge_rle_count_mismatch")
+                elif total < 32000:
+                    flags.add("mge_rle_terminator_before_image_is_full")
+                elif pairs_after_full:
+                    flags.add("mge_rle_pairs_after_image_is_full")
+                elif total > 32000:
+                    flags.add("mge_rle_last_run_overshoots")  # handled correctly by the unchanged decoder (run is clipped)
     elif fmt == "rat":
         if n < 19:
             flags.add("short_header")
@@ -165,7 +172,10 @@ def classify(fmt, data, argv=()):
     elif fmt == "vef":
         if n < 18:
             flags.add("short_header")
-            flags.add("vef_pixel_count_mismatch")  # no pixel data at all
+            if n >= 2 and data[0] != 128:
+                flags.add("vef_pixel_count_mismatch")  # raw layout with no pixel data at all
+            else:
+                flags.add("vef_squashed_truncated")
         else:
             typ = data[1]
             if typ not in model.VEF_TYPES:
@@ -211,5 +221,5 @@ def classify(fmt, data, argv=()):
                         if i < n:
                             flags.add("trailing")
                     except IndexError:
-                        flags.add("vef_pixel_count_mismatch")
+                        flags.add("vef_squashed_truncated")  # the unchanged decoder raises IndexError here: a reported failure
     return flags
